@@ -33,13 +33,43 @@ def run(ctx):
     c14.r1(MultiAlias(ctx, {"C14.R1": "C17.R7"}))
 
 
+def durable_writes(repo, f):
+    """where the pid reaches the temporary file: `os.write(fd, data)`, or -- for a file object made with os.fdopen(fd, 'w'..) --
+    the flush() / close() that follows its write() (a buffered write() alone has put nothing into the file yet; with
+    buffering=0 the write() itself counts). -> (CFG nodes that make the content durable, [(call that carries the data, fd
+    expression)])"""
+    g = f.cfg
+    nodes = [n for c in calls_to(repo, f, "os.write") for n in nodes_with(f, c)]
+    data = [(c, c.args[0]) for c in calls_to(repo, f, "os.write") if c.args]
+    for s_ in g.stmts(ast.Assign):
+        v = s_.ast.value
+        if isinstance(v, ast.Call) and repo.call_target(f.module, f, v) == "os.fdopen" and v.args and len(s_.ast.targets) == 1 and isinstance(s_.ast.targets[0], ast.Name):
+            F = s_.ast.targets[0].id
+            mode = const(v.args[1], "r") if len(v.args) > 1 else next((const(k.value, "r") for k in v.keywords if k.arg == "mode"), "r")
+            if not (isinstance(mode, str) and any(x in mode for x in "wax+")):
+                continue
+            buffering = const(v.args[2], -1) if len(v.args) > 2 else next((const(k.value, -1) for k in v.keywords if k.arg == "buffering"), -1)
+            writes = [c for c in method_calls(f, "write") if isinstance(c.func.value, ast.Name) and c.func.value.id == F]
+            wn = [n for c in writes for n in nodes_with(f, c)]
+            data += [(c, v.args[0]) for c in writes if c.args]
+            if buffering == 0:
+                nodes += wn
+                continue
+            for c in method_calls(f, "flush") + method_calls(f, "close"):
+                if isinstance(c.func.value, ast.Name) and c.func.value.id == F:
+                    for n in nodes_with(f, c):
+                        if any(g.dominates(w, n, follow_exc=False) for w in wn):
+                            nodes.append(n)
+    return nodes, data
+
+
 def r1(ctx):
     repo = ctx.repo
     f = ctx.fn(repo.func(PF + ".create"))
     g = f.cfg
     val = [n for c in calls_to(repo, f, PF + ".validate") for n in nodes_with(f, c)]
     ctx.need(val, "C17.R1: create() does not call validate()")
-    sys_calls = calls_to(repo, f, ["tempfile.mkstemp", "os.write", "os.rename", "os.replace", "os.chmod", "os.close"])
+    sys_calls = calls_to(repo, f, ["tempfile.mkstemp", "os.write", "os.fdopen", "os.rename", "os.replace", "os.chmod", "os.close"])
     ctx.need(sys_calls, "C17.R1: create() writes nothing")
     for c in sys_calls:
         ctx.check("C17.R1", all(any(g.dominates(v, n, follow_exc=False) for v in val) for n in nodes_with(f, c)), key(f, "validate-first|" + norm(c.func)), site(f, c),
@@ -57,7 +87,7 @@ def r1(ctx):
             OLD = s.ast.targets[0].id
     ctx.need(OLD, "C17.R1: result of validate() is not bound")
     ren = [n for c in calls_to(repo, f, ["os.rename", "os.replace"]) for n in nodes_with(f, c)]
-    wr = [n for c in calls_to(repo, f, "os.write") for n in nodes_with(f, c)]
+    wr, _data = durable_writes(repo, f)
 
     def atom_of(e):
         if isinstance(e, ast.Call) and norm(e.func) == "os.getpid":
@@ -89,13 +119,16 @@ def r2(ctx):
     g = f.cfg
     ren = calls_to(repo, f, ["os.rename", "os.replace"])
     ctx.need(ren, "C17.R2: no os.rename in create()")
-    wr = [n for c in calls_to(repo, f, "os.write") for n in nodes_with(f, c)]
+    wr, wdata = durable_writes(repo, f)
     mk = calls_to(repo, f, "tempfile.mkstemp")
-    ctx.need(mk and wr, "C17.R2: mkstemp / os.write not found")
+    ctx.need(mk, "C17.R2: tempfile.mkstemp not found in create()")
+    ctx.check("C17.R2", bool(wr), key(f, "content-reaches-the-file"), site(f), "nothing in create() makes the pid reach the temporary file (no os.write, no flush()/close() after a file object's write())",
+              "os.write / write()+flush()")
     for c in ren:
         rn = nodes_with(f, c)
         ctx.check("C17.R2", all(any(g.dominates(w, r, follow_exc=False) for w in wr) for r in rn), key(f, "write-before-rename"), site(f, c),
-                  "the temp file is renamed onto the pid-file path before its content is written: a reader (or a crash) sees an empty pid file", "os.write dominates os.rename")
+                  "the temp file is renamed onto the pid-file path before its content has reached it (os.write, or flush()/close() after a buffered write()): a reader -- or a crash right after "
+                  "the rename -- sees an empty pid file", "the write is durable before os.rename")
         ctx.check("C17.R2", norm(c.args[1]) == "self.fname", key(f, "rename-target"), site(f, c), "the rename target is not the configured pid-file path", "rename(tmp, self.fname)")
         src = c.args[0]
         st = f.module.enclosing(mk[0], ast.Assign)
@@ -105,8 +138,8 @@ def r2(ctx):
     st = f.module.enclosing(mk[0], ast.Assign)
     if st is not None and isinstance(st.targets[0], ast.Tuple):
         fdv = st.targets[0].elts[0].id
-        for w in calls_to(repo, f, "os.write"):
-            ctx.check("C17.R2", isinstance(w.args[0], ast.Name) and w.args[0].id == fdv and "self.pid" in norm(w.args[1]), key(f, "writes-pid"), site(f, w), "os.write does not write the pid into the temp file", "os.write(fd, pid)")
+        for w, fde in wdata:
+            ctx.check("C17.R2", isinstance(fde, ast.Name) and fde.id == fdv and "self.pid" in norm(w.args[-1]), key(f, "writes-pid"), site(f, w), "the write does not put the pid into the temp file made by mkstemp", "write(fd, pid)")
         other = [x for x in stores_to_name(f, fdv) if x.ast is not st]
         ctx.check("C17.R2", not other, key(f, "fd-from-mkstemp-only"), site(f, other[0] if other else None), "the descriptor create() writes the pid to does not always come from mkstemp (`%s`): the pid-file path "
                   "itself can be truncated and rewritten in place" % (other[0].text if other else ""), "fd only from tempfile.mkstemp")
